@@ -130,7 +130,8 @@ CHECKS["C07"] = dict(
     note="Trusted: Coq kernel; translator T10; hand-written models; the ratio Jacobian is taken with rows and columns in pre-order OR "
          "in node-index order as autograd lays it out (C07_det_simultaneous_permutation: any injective re-indexing of rows and "
          "columns by the same map leaves the determinant unchanged; C07_ratio_report_is_logabsdet_node_order; "
-         "C07_node_order_entries_are_partial_derivatives); torch autograd on the implementation side; StickBreaking / "
+         "C07_node_order_entries_are_partial_derivatives — these go through mathcomp's determinant over R and additionally "
+         "list the standard-library axiom ClassicalEpsilon.constructive_indefinite_description); torch autograd on the implementation side; StickBreaking / "
          "ConvexCombination / RescaledRate transforms not covered (non-square or nothing reported); TrilExpDiagonal: "
          "inverse only (it reports no log-det).",
     design="§6 C07")
